@@ -2,7 +2,7 @@
 import itertools
 import random
 
-from common import run_shards, coq_str
+from common import run_shards, coq_str, ident_vocab
 
 PROP = 'C20'
 COQ_TARGETS = ['Props/C20.vo', 'Run/AgreeRename.vo']
@@ -34,6 +34,9 @@ def word_lists(tier, rng):
         out += rng.sample(triples, 300)
     else:
         out += triples
+    # real words (keywords, builtins, conventional names): alone, doubled, and paired with an ordinary word on either side
+    vocab = ident_vocab()
+    out += [[w] for w in vocab] + [[w, w] for w in vocab] + [[w, 'ab'] for w in vocab] + [['ab', w] for w in vocab]
     alpha = 'abcdefghijklmnopqrstuvwxyz'
     for _ in range(200 if tier == 'quick' else 3000):
         out.append([''.join(rng.choice(alpha) for _ in range(rng.randint(2, 7))) for _ in range(rng.randint(1, 5))])
@@ -47,6 +50,9 @@ def malformed_names(tier):
             s = ''.join(p)
             if s == '' or s[0] in '_-' or s[-1] in '_-' or any(a in '_-' and b in '_-' for a, b in zip(s, s[1:])):
                 out.append(s)
+    # the same malformations around real words: a trailing underscore after a keyword is still a trailing separator
+    for w in ident_vocab():
+        out += [w + '_', '_' + w, w + '__', '__' + w, '__' + w + '__', w + '-', '-' + w, w + '__' + w, w + '_-' + w, w + '_' + w + '_', '_' + w + '_' + w]
     return out
 
 
